@@ -379,4 +379,6 @@ def build():
         lambda a, k: (np.sign(a[2]), np.sign(a[1] - a[0]), (a[1] - a[0]) % a[2] == 0)))
     from harness import c08_fams2
     F.extend(c08_fams2.build(torch))
+    from harness import c08_fams3
+    F.extend(c08_fams3.build(torch))
     return F
